@@ -10,6 +10,7 @@ universally quantified fact on some witnesses is sound; it may be incomplete.
 """
 import fractions
 import itertools
+import os
 import time
 
 import z3
@@ -525,6 +526,46 @@ class Drop1(LTerm):
         return "%s[1:]" % self.inner.describe()
 
 
+class Slice(LTerm):
+    """inner[lo:hi] with python's clamping of out-of-range and negative bounds (step 1)"""
+
+    def __init__(self, interp, inner, lo, hi):
+        super().__init__(interp, inner.etype)
+        self.inner = inner
+        n = inner.length()
+
+        def norm(x, default):
+            if x is None:
+                return default
+            x = to_z3(x)
+            return z3.If(x < 0, z3.If(x + n < 0, z3.IntVal(0), x + n), z3.If(x > n, n, x))
+        self.lo = z3.simplify(norm(lo, z3.IntVal(0)))
+        self.hi = z3.simplify(norm(hi, n))
+        self._len = z3.simplify(z3.If(self.hi - self.lo > 0, self.hi - self.lo, 0))
+
+    def length(self):
+        return self._len
+
+    def define_member(self, m):
+        im = self.inner.new_member(m.cond, z3.simplify(self.lo + m.idx))
+        self.ctx.assume(z3.Implies(m.cond, self.interp.elem_eq(m.elem, im.elem)))
+
+    def describe(self):
+        return "%s[a:b]" % self.inner.describe()
+
+
+def mk_slice(interp, inner, lo, hi):
+    ctx = interp.ctx
+    t = Slice(interp, inner, lo, hi)
+    key = ("slice", id(inner), t.lo.get_id(), t.hi.get_id())
+    if key in ctx.hc:
+        return ctx.hc[key]
+    ctx.hc[key] = t
+    ctx.hc[("pin", t.lo.get_id())] = t.lo  # keep the bound expressions (and so their ids) alive
+    ctx.hc[("pin", t.hi.get_id())] = t.hi
+    return t
+
+
 class Reverse(LTerm):
     """inner[::-1]"""
 
@@ -996,6 +1037,8 @@ class Ctx:
         while changed:
             changed = False
             rounds += 1
+            if rounds > 45 and os.environ.get("PYVC_DEBUG_GROUND"):
+                print("ROUND", rounds, [(t.describe(), len(t.members), len(t.all_facts), len(t.pair_facts), len(t.adj_facts), self.gs.get(id(t))) for t in self.terms])
             if rounds > 50:
                 raise EngineError("grounding does not terminate")
             # linked terms (proved equal as lists): indices of interest are shared
@@ -1062,10 +1105,30 @@ class Ctx:
                     work.extend(t.parts)
                 elif isinstance(t, Sorted):
                     work.append(t.inner)
-                elif isinstance(t, Reverse):
+                elif isinstance(t, (Reverse, Slice)):
                     work.append(t.inner)
             for t in list(self.terms):
                 if id(t) not in flagged:
+                    continue
+                if isinstance(t, Slice):
+                    # an element of the underlying list inside the window is an element of the slice
+                    done = t.__dict__.setdefault("_fwd", set())
+                    for pm in list(t.inner.members):
+                        if pm.serial in done:
+                            continue
+                        done.add(pm.serial)
+                        if pm.gen > 0 or self.fwd_budget <= 0:
+                            continue
+                        k = z3.simplify(pm.idx - t.lo)
+                        if any(m.idx.eq(k) or z3.simplify(t.lo + m.idx).eq(pm.idx) for m in t.members):
+                            continue
+                        self.fwd_budget -= 1
+                        Member.cur_gen[0] = 1
+                        try:
+                            t.new_member(z3.And(pm.cond, k >= 0, k < t.length()), k)
+                        finally:
+                            Member.cur_gen[0] = 0
+                        changed = True
                     continue
                 if isinstance(t, Reverse):
                     # an element of the underlying list is the mirrored element of the reversed one
@@ -1211,7 +1274,8 @@ class Ctx:
                                 fc, fn, tag = t.adj_facts[fi]
                                 self.assume(z3.Implies(z3.And(m1.cond, m2.cond, fc, m2.idx == m1.idx + 1),
                                                        self.inst2(t, fn, m1, m2)))
-                st[0], st[1], st[2], st[3] = M, A, P, J
+                # (written back through the dict: a scoped evaluation inside a fact replaces ctx.gs by its snapshot)
+                self.gs[id(t)] = [M, A, P, J]
 
     def touch(self, exprs, cond, skip=None):
         """trigger-based instantiation: every element  T.f(i)  of a list that the expressions mention becomes an
